@@ -26,7 +26,7 @@ PROPS = {
         "functions": ["encode_base", "valid_base", "rc_base", "UInt::rev_comp", "UInt::generate_masks",
                       "SplitKmer::build", "SplitKmer::update_rc", "SplitKmer::roll_fwd", "SplitKmer::new",
                       "SplitKmer::get_curr_kmer", "SplitKmer::get_next_kmer", "SplitKmer::self_palindrome"],
-        "kani": [("tables", ["iupac_order_independent", "encode_decode_consistent", "valid_base_n"])],
+        "kani": [("tables", ["iupac_order_independent", "encode_decode_consistent", "valid_base_n"]), ("palin", None)],
         "bounded": [],
     },
     "C06": {
@@ -34,7 +34,7 @@ PROPS = {
         "verus": [("rowfrag", [None])],
         "functions": ["is_ambiguous", "filter.keep_noconst", "filter.keep_noambig", "filter.collect_types", "filter.weight_step",
                       "update_counts.count_pred"],
-        "kani": [("tables", ["oracle_bijective", "is_ambiguous_classification"])],
+        "kani": [("tables", ["oracle_bijective", "is_ambiguous_classification"]), ("wrappers", None)],
         "bounded": [{"group": "ndarr", "name": "bounded_update_counts_2x2", "bound": "2 rows x 2 samples, symbolic bytes, flag and stored counts",
                      "args": ["-Z", "unstable-options", "--cbmc-args", "--unwindset", "memcmp.0:18"], "timeout": 2400}],
     },
@@ -95,6 +95,7 @@ PROPS = {
 KANI_GROUPS = {
     "tables": {"attach": "src/ska_dict/bit_encoding.rs", "file": "tables_harness.rs", "complete": True},
     "rollstep": {"attach": "src/ska_dict/split_kmer.rs", "file": "rollstep_harness.rs", "complete": True},
+    "wrappers": {"attach": "src/merge_ska_array.rs", "file": "wrappers_harness.rs", "complete": True, "args": ["-Z", "stubbing"]},
     "bitops": {"attach": "src/ska_dict/bit_encoding.rs", "file": "bitops_harness.rs", "complete": True},
     "nthash": {"attach": "src/ska_dict/nthash.rs", "file": "nthash_harness.rs", "complete": True},
     "palin": {"fragment_unit": "palinfrag", "file": "palin_harness.rs", "complete": True},
